@@ -169,6 +169,12 @@ CMAP_RANGE_FAULTS = [
     (b"begincidrange", b"<0000> <ffff> 4294967295", b"endcidrange"),
     (b"beginbfrange", b"<0041> <0042> [<0041>]", b"endbfrange"),
     (b"beginbfrange", b"<0042> <0041> <0041>", b"endbfrange"),
+    (b"beginbfrange", b"<0041> <0042> [70000000 5]", b"endbfrange"),
+    (b"beginbfrange", b"<0041> <0042> [-5 5]", b"endbfrange"),
+    (b"beginbfrange", b"<0041> <0042> 65", b"endbfrange"),
+    (b"beginbfrange", b"<0041> <0042> [/A#ff /B]", b"endbfrange"),
+    (b"beginbfchar", b"<0041> 70000000 <0042> -1", b"endbfchar"),
+    (b"begincidchar", b"<0041> 70000000", b"endcidchar"),
 ]
 
 
